@@ -252,11 +252,11 @@ def impl(case):
 
     def on_added(info):
         added.append(info)
-        notes.append(['added', kidx[info['key']], info['t0'], clock()])
+        notes.append(['added', kidx.get(info['key'], -1), info['t0'], clock()])
 
     def on_removed(info):
         removed.append(info)
-        notes.append(['removed', kidx[info['key']], info['t0']])
+        notes.append(['removed', kidx.get(info['key'], -1), info['t0']])
     q.connect(on_added, 'added')
     q.connect(on_removed, 'removed')
     esize, post, n, B = _times(case)
